@@ -9,11 +9,25 @@ def run(ctx):
     ctx.tlc("MC_SymLookup", "MC_SymLookup.cfg", workers=1, timeout=300, tag="modes x kinds x presence: Impl in Req")
     modes = [("symtab", dict(ldflags="-s=false")), ("default", dict(ldflags=None)),
              ("stripped", dict(ldflags="-s -w")), ("pie", dict(ldflags="-s=false", buildmode="pie")),
-             ("piestripped", dict(ldflags="-s -w", buildmode="pie"))]
+             ("piestripped", dict(ldflags="-s -w", buildmode="pie")),
+             ("external", dict(ldflags="-s=false -linkmode=external"))]
+    runs = []
     for mode, kw in modes:
-        binary = ctx.build_test("zzverif/drv", ["drv"], name="drv_" + mode, **kw)
+        try:
+            binary = ctx.build_test("zzverif/drv", ["drv"], name="drv_" + mode, **kw)
+        except vlib.Broken as e:
+            if mode == "external":
+                ctx.note("link mode external not built (no C toolchain?): " + str(e)[-200:])
+                continue
+            raise
+        runs.append((mode, binary, {}))
+        if mode in ("symtab", "external"):
+            runs.append((mode, binary, {"VERIF_ORDER": "varfirst"}))   # same binary, the first lookup of the process is a variable
+    for mode, binary, extra in runs:
         out = ctx.path("sym_%s.ndjson" % mode)
-        rc, o = ctx.run_bin(binary, "^TestVerifSymLookup$", env={"VERIF_OUT": out, "VERIF_MODE": mode, "VERIF_QUIET": "1"}, timeout=900)
+        rc, o = ctx.run_bin(binary, "^TestVerifSymLookup$", env=dict({"VERIF_OUT": out, "VERIF_MODE": mode, "VERIF_QUIET": "1"}, **extra), timeout=900)
+        if extra:
+            mode = mode + "/varfirst"
         if rc != 0 or not os.path.exists(out):
             ctx.violation("symbol lookup crashed in link mode %s: %s" % (mode, o[-800:]), {"family": "sym", "kind": "crash", "mode": mode, "tail": o[-2000:]})
             continue
